@@ -454,15 +454,46 @@ func (s *spyStore) call(method, sid string, fn func() error) *SpyEv {
 		ev.Check = w.active[task.ID]
 	}
 	ev.Fault = w.faultAt("store." + method)
-	switch ev.Fault {
-	case "err-before":
+	switch {
+	case ev.Fault == "err-before":
 		w.countFault("store-err-before")
 		ev.Err = errors.New("sim: injected store failure (before effect)")
-	case "err-after":
+	case ev.Fault == "err-after":
 		w.countFault("store-err-after")
 		_ = fn()
 		ev.Applied = true
 		ev.Err = errors.New("sim: injected store failure (after effect)")
+	case ev.Fault == "crash-before":
+		w.countFault("crash-at-store-call")
+		w.Spy = append(w.Spy, ev)
+		panic(crashPanic{})
+	case ev.Fault == "crash-after":
+		w.countFault("crash-at-store-call")
+		_ = fn()
+		ev.Applied = true
+		w.Spy = append(w.Spy, ev)
+		panic(crashPanic{})
+	case ev.Fault == "evict":
+		// the session disappears (Redis eviction / concurrent removal) right before this call
+		w.countFault("session-evicted")
+		if ev.Check != nil {
+			ev.Check.Faults = ev.Check.Faults[:len(ev.Check.Faults)-1] // not a failure of the call itself
+			ev.Check.Perturbed = true
+		}
+		if sid != "" {
+			_ = s.inner.RemoveSession(context.Background(), sid)
+		}
+		ev.Err = fn()
+		ev.Applied = true
+	case strings.HasPrefix(ev.Fault, "corrupt:"):
+		w.countFault("store-field-corrupt")
+		if ev.Check != nil {
+			ev.Check.Faults = ev.Check.Faults[:len(ev.Check.Faults)-1]
+			ev.Check.Perturbed = true
+		}
+		w.corruptField(s.filter, sid, strings.TrimPrefix(ev.Fault, "corrupt:"))
+		ev.Err = fn()
+		ev.Applied = true
 	default:
 		ev.Err = fn()
 		ev.Applied = true
@@ -560,6 +591,22 @@ func (s *yieldStore) ClearAuthorizationState(ctx context.Context, id string) err
 func (s *yieldStore) RemoveSession(ctx context.Context, id string) error {
 	s.y()
 	return s.SessionStore.RemoveSession(ctx, id)
+}
+
+// crashPanic abandons the current check: the process "dies" at this seam call.
+type crashPanic struct{}
+
+// corruptField overwrites one stored hash field of a Redis-backed session with garbage.
+func (w *World) corruptField(fi int, sid, field string) {
+	if fi < 0 || fi >= len(w.Filters) || sid == "" {
+		return
+	}
+	m := penv.redis[w.Filters[fi].Spec.Store]
+	if m == nil || !m.Exists(sid) {
+		return
+	}
+	w.corruptStore = true
+	m.HSet(sid, field, "\x00garbage-"+field)
 }
 
 type spyJWKS struct {
@@ -671,6 +718,8 @@ type CheckRec struct {
 	Before   *SessSnap
 	After    *SessSnap
 	Overlapped bool
+	Perturbed  bool // the store content was perturbed (eviction, corruption) during this check
+	Abandoned  bool // the replica crashed inside this check: no verdict
 	PanicStack string
 }
 
@@ -803,6 +852,9 @@ func (w *World) Check(browser int, label, scheme, host, path string, hdr map[str
 		rec.After = w.Peek(rec.Filter, rec.SID)
 	}
 	w.classify(rec)
+	if rec.Abandoned {
+		w.CrashRestart()
+	}
 	tk := ""
 	for _, tr := range rec.TokenReqs {
 		tk += fmt.Sprintf(" [token %s -> %d %s %s]", tr.Grant, tr.Status, tr.Fault, sortedProblems(tr.Problems))
@@ -823,6 +875,10 @@ func lowerKeys(m map[string]string) map[string]string {
 func (w *World) invoke(rec *CheckRec, req *envoy.CheckRequest) {
 	defer func() {
 		if p := recover(); p != nil {
+			if _, ok := p.(crashPanic); ok {
+				rec.Abandoned = true
+				return
+			}
 			rec.Panic = p
 			rec.PanicStack = string(debug.Stack())
 		}
@@ -846,6 +902,9 @@ func hdrVals(hs []*corev3.HeaderValueOption, key string) []string {
 
 func (w *World) classify(rec *CheckRec) {
 	switch {
+	case rec.Abandoned:
+		rec.Class = "abandoned"
+		return
 	case rec.Panic != nil:
 		rec.Class = "panic"
 		return
